@@ -27,6 +27,9 @@ type cacheCase struct {
 	Sched   []uint8 `json:"sched,omitempty"`
 	Prio    []uint8 `json:"prio,omitempty"`
 	Changes []int   `json:"changes,omitempty"`
+	// NilKeys: keys whose function returns nil (a legitimate value: Do must hand it to every caller and must not
+	// take it for "not computed yet").
+	NilKeys []int `json:"nil_keys,omitempty"`
 }
 
 func (c cacheCase) strategy() sched.Strategy {
@@ -53,14 +56,18 @@ func run(c cacheCase, strat sched.Strategy, trace bool) outcome {
 			bad = f
 		}
 	}
-	calls := map[int]int{}    // key -> invocations of f
-	value := map[int]*val{}   // key -> the value returned by the (first) invocation
-	fDone := map[int]int{}    // key -> step at which f returned (0 = not yet)
-	inF := map[int]bool{}     // key -> f running now
+	calls := map[int]int{}      // key -> invocations of f
+	value := map[int]*val{}     // key -> the value returned by the (first) invocation
+	fDone := map[int]int{}      // key -> step at which f returned (0 = not yet)
+	inF := map[int]bool{}       // key -> f running now
 	doReturned := map[int]int{} // key -> earliest step at which some Do(key) returned
 	overlap := false
 	insideDo := map[int]int{} // key -> number of tasks currently inside Do(key)
 	inGet := map[int]string{} // scheduler task id -> description, while inside Get
+	nilKey := map[int]bool{}
+	for _, k := range c.NilKeys {
+		nilKey[k] = true
+	}
 	observer := func() {
 		for id, what := range inGet {
 			if sched.IsBlocked(id) {
@@ -102,11 +109,18 @@ func run(c cacheCase, strat sched.Strategy, trace bool) outcome {
 							}
 							inF[o.Key] = false
 							fDone[o.Key] = sched.Step() + 1
+							if nilKey[o.Key] {
+								return nil
+							}
 							return v
 						})
 						insideDo[o.Key]--
 						if fDone[o.Key] == 0 {
 							setBad(vt.Failf("do-returned-before-f-completed", "task %d: Do(%d) returned %v before the invocation of f completed", ti, o.Key, got))
+						} else if nilKey[o.Key] {
+							if got != nil {
+								setBad(vt.Failf("do-wrong-value", "task %d: Do(%d) returned %v, the single invocation returned nil", ti, o.Key, got))
+							}
 						} else if got != any(value[o.Key]) {
 							setBad(vt.Failf("do-wrong-value", "task %d: Do(%d) returned %v, the single invocation returned %v", ti, o.Key, got, value[o.Key]))
 						}
@@ -120,6 +134,10 @@ func run(c cacheCase, strat sched.Strategy, trace bool) outcome {
 						got := pc.Get(o.Key)
 						delete(inGet, me)
 						switch {
+						case nilKey[o.Key]:
+							if got != nil {
+								setBad(vt.Failf("get-wrong-value", "task %d: Get(%d) returned %v; the function for that key returns nil", ti, o.Key, got))
+							}
 						case got == nil:
 							if startedAfterDo {
 								setBad(vt.Failf("get-nil-after-do-returned", "task %d: Get(%d) returned nil although a Do for that key had already returned", ti, o.Key))
@@ -219,6 +237,9 @@ func genProgs(t *rapid.T) [][]pop {
 
 func genCache(t *rapid.T) cacheCase {
 	c := cacheCase{Tasks: genProgs(t)}
+	if rapid.IntRange(0, 3).Draw(t, "nilkeys") == 2 {
+		c.NilKeys = rapid.SliceOfNDistinct(rapid.IntRange(0, 3), 1, 2, rapid.ID[int]).Draw(t, "nilkey")
+	}
 	if rapid.IntRange(0, 3).Draw(t, "mode") == 0 {
 		c.Mode = "pct"
 		c.Prio = rapid.SliceOfN(rapid.Byte(), 1, 6).Draw(t, "prio")
